@@ -41,6 +41,7 @@ def run(tier):
         for sid in ('', 'bob'):
             extra.append([O('setlock', t=t, b=False), O('setsession', s=sid), O('setprefix', t=t), O('put', k='a0', v='x%d%s' % (t, sid)), O('put', k='b1', v='y%d%s' % (t, sid)),
                           O('dump'), O('dump', k='a'), O('setsession', s='alice'), O('dump'), O('get', k='a0')])
+    extra += [q for q in kv.session_switch_sequences() if '' not in (q[1]['s'], q[3]['s'])]
     with open(sp, 'a') as f:
         for e in extra:
             seqs.append(e)
